@@ -66,6 +66,10 @@ func GenGenesis(t *rapid.T, prof *Profile) GenesisSpec {
 		g.ChainID = id
 		g.Notes = append(g.Notes, "chain-id="+id)
 	}
+	if h := []int64{0, 0, 0, 9_600_000, 20_000_000, 2}[draw("g.initialheight", 6)]; h > 0 {
+		g.InitialHeight = h
+		g.Notes = append(g.Notes, fmt.Sprintf("initial-height=%d", h))
+	}
 	// a vesting account among the users: most of its coins are locked (it owns them, it cannot spend them)
 	if prof.VestingPct > 0 && draw("g.vesting", 100) >= 100-prof.VestingPct {
 		keep := []string{"1000", "1000000", "50000000", "0"}[draw("g.vesting.keep", 4)]
